@@ -152,6 +152,15 @@ def rule_m1(prog: Program, col: Collector) -> None:
                     if f[0] == "if" and _classify_guard(f[1], D) == "tolerance":
                         b = _tolerance_bound(f[1], D)
                         if b is not None:
+                            t0 = f[1]
+                            while t0[0] == "un" and t0[1] == "not":
+                                t0 = t0[2]
+                            strict = t0[0] == "cmp" and ((t0[1] == "<" and is_call_to(t0[2], "abs", "numpy.abs", "numpy.absolute", "math.fabs")) or
+                                                          (t0[1] == ">" and is_call_to(t0[3], "abs", "numpy.abs", "numpy.absolute", "math.fabs")))
+                            can_be_zero = any(s2[0] in ("call", "param", "attr", "index") for s2 in subterms(b))
+                            col.check(not (strict and can_be_zero), ref.where(e.node), ref.short,
+                                      "the tolerance test is non-strict (|x| <= tol): it also fires when the tolerance itself is 0", construct="tolerance-strict",
+                                      necessity="for the all-zero game the scale, hence the tolerance, is 0: `|0| < 0` is false and the game is divided by 0")
                             col.check(_nonneg(b), ref.where(e.node), ref.short,
                                       f"the tolerance {short(b, 60)} is non-negative by construction (built from absolute values / norms / positive literals)",
                                       construct="tolerance-sign",
@@ -318,3 +327,53 @@ def rule_m2345(prog: Program, col: Collector) -> None:
     col.check(bool(gmul) and bool(gdiv) and gmul[0].target[2] == gdiv[0].target[2] == "_graph_matrix", gd.where(), gd.short,
               "graph games: weights /= G on normalise, *= position 0 of the norm-info on de-normalise", construct="graph-inverse",
               necessity="the graph representation must round-trip like the table representation")
+
+
+def rule_m6_stale_views(prog: Program, col: Collector) -> None:
+    """M6: a name bound to a live view of a game is not read again after that game was mutated."""
+    col.rule("M6", "in the normalisers, an array obtained from a view getter before the game is modified is not read afterwards (views alias the table)", 1)
+    gm = prog.methods("game.IncompleteCooperativeGame")
+    views = set()
+    for name in ("get_lower_bounds", "get_upper_bounds", "get_values", "get_interval", "get_intervals"):
+        if name in gm:
+            rv = list(fterms(prog, gm[name]).of_kind("return"))
+            if rv and not all(is_call_to(x.value, "numpy.copy", "numpy.array") or (x.value[0] == "call" and x.value[1][0] == "attr" and x.value[1][2] == "copy") for x in rv):
+                views.add(name)
+    MUT = {"set_value", "set_values", "set_known_values", "unset_value", "reveal_value", "unreveal_value", "set_lower_bound", "set_upper_bound",
+           "set_lower_bounds", "set_upper_bounds", "compute_bounds"}
+    nfun = 0
+    for q in ("normalize._normalize_icg", "normalize._normalize_graph_game", "normalize.denormalize_game", "normalize.normalize_game", "normalize._get_norminfo"):
+        ref = prog.find_func(q)
+        if ref is None:
+            continue
+        nfun += 1
+        ft = fterms(prog, ref)
+        found = False
+        for a in ft.of_kind("assign"):
+            v = a.value
+            if not (v[0] == "call" and v[1][0] == "attr" and v[1][2] in views and (not v[2] or v[2] == (("const", None),))):
+                continue
+            recv = v[1][1]
+            muts = [e for e in ft.calls() if e.recv == recv and e.name in MUT and e.seq > a.seq]
+            if not muts:
+                continue
+            first = min(e.seq for e in muts)
+            late = []
+            for e in ft.events:
+                if e.seq <= first or e.stmt is None or e.stmt is a.node:
+                    continue
+                if any(isinstance(n, ast.Name) and n.id == a.name and isinstance(n.ctx, ast.Load) for n in ast.walk(e.stmt)):
+                    # in-place operations ON the view are its purpose (scaling the table); only reads used as data count
+                    if e.kind == "aug" and e.data.get("name") == a.name:
+                        continue
+                    late.append(e)
+            if late:
+                found = True
+                col.violation(ref.where(late[0].node), ref.short, f"stale-view:{a.name}",
+                              f"`{a.name}` is a live view returned by {v[1][2]}() before the game is modified by {muts[0].name}(); it is read again afterwards",
+                              "getters return views of the value table: after the subtraction loop the 'original values' are the already modified ones "
+                              "(the scale of an additive game collapses to its rounding residue and the additive guard no longer fires)")
+        if not found:
+            col.ok(ref.where(), ref.short, "no view obtained before a mutation is read after it")
+    if nfun == 0:
+        raise AnalysisError("M6: normaliser functions not found")
